@@ -38,12 +38,15 @@ SyncOutcome ==
       new    == w
       since1 == since \/ fresh                                \* db.go:1306
       f1     == IF fresh THEN 1 ELSE 0
-      trunc  == orig >= TruncPg                               \* priority 1 (tested on the size BEFORE this sync)
+      trunc  == TruncPg > 0 /\ orig >= TruncPg                \* priority 1 (tested on the size BEFORE this sync); 0 = default (121359 pages)
       pmin   == new >= MinPg                                  \* priority 2
       ptime  == Interval = "elapsed" /\ since1 /\ new > 1     \* priority 3
+      \* priority 1 tries PASSIVE first (db.go:1438-1459); with nothing pinned it restarts the WAL (bump, one more file), and the
+      \* blocking TRUNCATE with its boundary snapshot follows only if the bookkeeping frame alone still reaches the threshold
+      again  == IF trunc /\ 1 >= TruncPg THEN 1 ELSE 0
   IN IF trunc \/ pmin \/ ptime
-       THEN [w |-> 1, synced |-> 1, since |-> FALSE, files |-> f1 + 1]   \* checkpoint, bump, one more file
-       ELSE [w |-> w, synced |-> new, since |-> since1, files |-> f1]
+       THEN [w |-> 1, synced |-> 1, since |-> FALSE, files |-> f1 + 1 + again, ckpt |-> TRUE]   \* checkpoint, bump, one more file
+       ELSE [w |-> w, synced |-> new, since |-> since1, files |-> f1, ckpt |-> FALSE]
 
 Sync == /\ LET o == SyncOutcome IN
            /\ w' = o.w /\ synced' = o.synced /\ since' = o.since /\ lastFiles' = o.files
@@ -55,7 +58,7 @@ Sync == /\ LET o == SyncOutcome IN
 Next == (\E k \in 1..3 : AppWrite(k)) \/ GoIdle \/ Sync
 Spec == Init /\ [][Next]_vars
 
-Lowest == IF MinPg < TruncPg THEN MinPg ELSE TruncPg
+Lowest == IF TruncPg = 0 \/ MinPg < TruncPg THEN MinPg ELSE TruncPg
 \* C13, first sentence: after every successful sync the live generation holds fewer frames than the lowest
 \* threshold plus litestream's own bookkeeping frame (evaluated in the state right after a Sync step)
 AfterSyncBound == [][Sync => w' < Lowest + 1]_vars
@@ -63,7 +66,7 @@ AfterSyncBound == [][Sync => w' < Lowest + 1]_vars
 IdleSilence == made = 0
 \* configuration shapes of the known findings
 Y1 == MinPg = 1 \/ TruncPg = 1          \* the bookkeeping frame alone reaches the threshold: idle syncs checkpoint forever
-Y2 == TruncPg < MinPg                    \* emergency threshold below the regular one is tested on the pre-sync size
+Y2 == TruncPg > 0 /\ TruncPg < MinPg                    \* emergency threshold below the regular one is tested on the pre-sync size
 AfterSyncBoundK == [][(Sync /\ ~Y2) => w' < Lowest + 1]_vars
 IdleSilenceK == Y1 \/ made = 0
 ====
